@@ -76,6 +76,8 @@ def canon(x):
         return ("dict", tuple((canon(k), canon(v)) for k, v in x.items()))
     if isinstance(x, Box):
         return ("Box", canon(vars(x)))
+    if isinstance(x, (types.BuiltinMethodType, types.MethodType)):
+        return ("method", getattr(x, "__name__", "?"))
     if isinstance(x, (types.GeneratorType, collections.abc.Iterator)) and not isinstance(x, (str, bytes)):
         return ("iterator",)        # consumed by rendering; its items are compared through their owners
     return (type(x).__name__, repr(x))
@@ -241,7 +243,15 @@ PATHS = {
     "deep-loop": "{%% for r in rows %%}{%% for k, v in r.items() %%}{{ v.%(m)s(%(a)s) }}{%% endfor %%}{%% endfor %%}",
     "deep-map-dotted": "{%% for f in [deep]|map(attribute='data.inner.c.%(m)s') %%}{{ f(%(a)s) }}{%% endfor %%}",
     "deep-alias": "{%% set x = deep.data.inner %%}{%% set f = x.c.%(m)s %%}{{ f(%(a)s) }}",
+    # a stored reference to the bound method supplied by the HOST as render data (hm = c.<m>), directly and in containers
+    "host-ref": "{{ hm(%(a)s) }}",
+    "host-ref-dict": "{{ hmd.f(%(a)s) }}",
+    "host-ref-list": "{{ hml[0](%(a)s) }}",
+    "host-ref-alias": "{%% set g = hm %%}{{ g(%(a)s) }}",
+    "host-ref-loop": "{%% for g in hml %%}{{ g(%(a)s) }}{%% endfor %%}",
+    "host-ref-macro": "{%% macro call(g) %%}{{ g(%(a)s) }}{%% endmacro %%}{{ call(hmd['f']) }}",
 }
+HOST_REF_PATHS = ("host-ref", "host-ref-dict", "host-ref-list", "host-ref-alias", "host-ref-loop", "host-ref-macro")
 FORMAT_PATHS = {
     "format-deep": "{{ '{0.data[inner].c.%(m)s}'.format(deep) }}",
     "format-attr": "{{ '{0.%(m)s}'.format(c) }}{{ '{0.inner.%(m)s}'.format(o) }}",
@@ -269,13 +279,16 @@ def render_case(envs, mode, src, data):
         return "Base:" + type(e).__name__
 
 
-def method_data(T, variant, args):
+def method_data(T, variant, args, m=None):
     c = fresh(T, variant)
     inner = fresh(T, variant)
     binner = fresh(T, variant)
     data = {"c": c, "o": {"inner": inner}, "b": Box(inner=binner),
             "deep": Box(data={"inner": Box(c=fresh(T, variant))}),
             "rows": [{"cell": fresh(T, variant)}, {"cell": fresh(T, variant)}]}
+    hm = getattr(c, m, None) if m is not None else None
+    if callable(hm):
+        data.update({"hm": hm, "hmd": {"f": hm}, "hml": [hm]})
     for i, a in enumerate(copy.deepcopy(args)):
         data[f"a{i}"] = a
     return data
@@ -306,7 +319,7 @@ def judge_method_case(ctx, envs, case, model_safe, exists=True):
     steps = {"plain-first": ["plain", "imm"], "immutable-first": ["imm", "plain", "imm"], "immutable-only": ["imm"]}[order]
     outcome = None
     for stepno, step in enumerate(steps):
-        data = method_data(T, variant, args)
+        data = method_data(T, variant, args, m)
         if step == "plain":
             render_case(envs, "plain-" + mode, src, data)       # mutation is allowed here
             continue
@@ -489,7 +502,12 @@ def run(ctx):
                 case = {"kind": "method", "T": T, "m": m, "args": ai, "variant": variant, "path": path, "mode": mode,
                         "order": "plain-first" if idx % 2 == 0 else "immutable-first"}
                 nontriv = bool(bits and bits["spec"]) or (T, m) in observed and observed[(T, m)][0]
-                ok = judge_method_case(ctx, envs, case, bits["safe"] if bits else None,
+                if path in HOST_REF_PATHS and (m in DUNDER_MUTATORS or not callable(getattr(PY_OF[T], m, None))):
+                    continue      # host-supplied references: the public methods of the four types
+                # a host-supplied bound method never passes through attribute access: the immutable call gate
+                # decides, by modifies_known_mutable(method.__self__, method.__name__)
+                predicted = (not bits["mkm"] if path in HOST_REF_PATHS else bits["safe"]) if bits else None
+                ok = judge_method_case(ctx, envs, case, predicted,
                                        exists=hasattr(PY_OF[T], m) and callable(getattr(PY_OF[T], m, None)))
                 ctx.case(sample=case if nontriv and path == "map-attribute" else None,
                          key=("m", T, m, ai, variant, path, mode) if nontriv else None)
